@@ -15,7 +15,7 @@ from fractions import Fraction
 import numpy as np
 
 from common import F, Rng, close_all, digest, err_class, fl, pmat, pvec, rs
-from fpca_util import (EigCapture, Fm, Fv, Smat, Svec, curves, dense, grid, non_increasing, quiet,
+from fpca_util import (trapz_weights, EigCapture, Fm, Fv, Smat, Svec, curves, dense, grid, non_increasing, quiet,
                        raw_from_call, sel_to_model, sel_to_py)
 
 PROP = "C01"
@@ -122,6 +122,17 @@ def _helper_cases(rng: Rng, tier):
             spec = s
         sels = _sels(rng, n, spec) + (_boundary_sels() if k % 5 == 0 else [])
         yield dict(kind="helper", sub=sub, A=A.tolist(), sel=rng.choice(sels), spectrum=spec)
+    # (b') fractions sitting exactly on a cumulated ratio, in exact float arithmetic (power-of-two totals)
+    for spec in ([4.0, 2.0, 1.0, 1.0], [2.0, 1.0, 1.0], [8.0, 4.0, 2.0, 1.0, 1.0], [1.0, 1.0]):
+        perms = list(itertools.permutations(spec))
+        for p in (perms if big else rng.sample(perms, min(4, len(perms)))):
+            tot = sum(p)
+            k = rng.randrange(len(p) - 1)
+            hit_solver = Fraction(sum(p[: k + 1])) / Fraction(tot)
+            hit_sorted = Fraction(sum(sorted(p, reverse=True)[: k + 1])) / Fraction(tot)
+            for frac in {hit_solver, hit_sorted}:
+                if frac < 1:
+                    yield dict(kind="helper", sub="exact_fraction", A=np.diag(p).tolist(), sel=["frac", rs(frac)], spectrum=list(p))
     # (c) boundary selectors on a fixed small matrix
     for sel in _boundary_sels():
         yield dict(kind="helper", sub="boundary", A=[[2.0, 0.0, 0.0], [0.0, 5.0, 0.0], [0.0, 0.0, 3.0]], sel=sel, spectrum=[2.0, 5.0, 3.0])
@@ -316,10 +327,8 @@ def run_impl(case):
         out["weights"] = float(est.weights)
         # pairing residual (1-D only): covariance operator of the data the estimator decomposed
         if Phi is not None and Phi.ndim == 2:
-            from FDApy.misc.utils import _integration_weights
-
             t = np.asarray(fd.argvals["input_dim_0"], dtype=float)
-            w = _integration_weights(t, "trapz")
+            w = trapz_weights(t)
             Xc = X - X.mean(axis=0)
             if case["normalize"]:
                 Xc = Xc / np.sqrt(out["weights"])
@@ -387,11 +396,29 @@ def _frac_tie(case, impl):
     if tot == 0:
         return False
     acc = Fraction(0)
+    near = False
     for v in vals:
         acc += v
         if abs(acc / tot - p) < Fraction(1, 10**9):
-            return True
-    return False
+            near = True
+    if not near:
+        return False
+    return not _float_cumratio_exact([float(v) for v in vals])
+
+
+def _float_cumratio_exact(vals):
+    """Is NumPy's `cumsum(v) / sum(v)` free of rounding on these values?  (Then a decision that
+    sits exactly on a cumulated ratio is not a tie: `<` and `<=` differ and the property decides.)"""
+    cs = np.cumsum(np.array(vals, dtype=float))
+    tot = float(np.sum(np.array(vals, dtype=float)))
+    acc = Fraction(0)
+    for v, c in zip(vals, cs):
+        acc += Fraction(v)
+        if Fraction(float(c)) != acc:
+            return False
+    if Fraction(tot) != acc or tot == 0:
+        return False
+    return all(Fraction(float(c) / tot) == Fraction(float(c)) / Fraction(tot) for c in cs)
 
 
 def parse_model(case, outs):
@@ -499,7 +526,7 @@ def oracle(case, impl):
             tot = sum(srt)
             if tot > 0 and 0 < p < 1:
                 cum = np.cumsum(srt) / tot
-                if np.abs(cum - p).min() > 1e-9:
+                if np.abs(cum - p).min() > 1e-9 or (_float_cumratio_exact(srt) and _float_cumratio_exact([max(x, 0.0) for x in impl.get("raw_vals", srt)])):
                     want = int(np.sum(cum < p)) + 1
                     if k != want or any(abs(a - b) > 1e-9 * lam_max for a, b in zip(vals, srt[:k])):
                         bad("fraction", f"fraction {p}: kept {vals[:6]} but the smallest leading set reaching it is {srt[:want][:6]}")
